@@ -33,7 +33,7 @@ TProd ==
   /\ Ev.a = "Prod"
   /\ Ev.genesis = 1700352000
   /\ Ev.slot_before <= Ev.current /\ Ev.current <= Ev.slot_after
-  /\ Ev.trigger + Ev.period + AcceptW < Ev.window      \* CadenceSafe on the production numbers
+  /\ Ev.trigger + Ev.period + Ev.halfw < Ev.window     \* CadenceSafe on the production numbers
   /\ Ev.period >= 1
 TNext ==
   /\ l <= Len(Trace) /\ l' = l + 1
